@@ -677,7 +677,7 @@ def c13(rac, units, tier, seed):
         qs = []
         for _ in range(3):
             t, _d, _s = _spell_parts(rnd, units, by_name, parts)
-            v = F(rnd.randint(1, 20), rnd.choice([1, 2, 3]))
+            v = F(rnd.randint(1, 20), rnd.choice([1, 2, 3])) if rnd.random() > 0.15 else F(0)   # exact zeros too: "zero adopts the other unit" shortcuts
             qs.append(f"({v.numerator} / {v.denominator}) * 1{t}")
         a, b, c = qs
         same(rep, "a+b = b+a (compound, prefixes)", f"({a}) + ({b})", f"({b}) + ({a})")
@@ -1282,17 +1282,64 @@ def c18(rac, units, tier, seed):
             want = sorted((ph, alone[ph][1]) for ph in phs)
             if got != want:
                 rep.fail("descriptions are not exactly the looked-up phrases paired with the constants used", query=q, expected=str(want)[:300], actual=str(got)[:300])
-    # isolation: the same queries in a fresh process, in another order, give the same answers
+    # the same phrase used twice (caches), and several queries in one input: every use is reported, each query as in isolation
+    for ph in good[:25]:
+        other = rnd.choice(good)
+        for q, want_ph in [(f"({ph}) / ({ph})", [ph, ph]), (f"({ph}) * ({other}) / ({ph})", [ph, other, ph]), (f"({ph}) ({ph})", None), (f"({other}) ({ph})", None)]:
+            a1 = run(q, True)
+            a0 = run(q, False)
+            rep.ran(("repeat", q), True)
+            if [json.dumps(x.get("ok", x.get("err")), sort_keys=True) for x in a0.get("results", [])] != [json.dumps(x.get("ok", x.get("err")), sort_keys=True) for x in a1.get("results", [])]:
+                rep.fail("describing changes the answer", query=q, expected="same results", actual="differ")
+            got = sorted(d["phrase"] for d in a1.get("descriptions", []))
+            want = sorted(want_ph) if want_ph is not None else sorted(re.findall(r"\(([^()]*)\)", q))
+            if all("ok" in x for x in a1.get("results", [])) and got != want:
+                rep.fail("every looked-up phrase is reported, as often as it is used", query=q, expected=str(want), actual=str(got))
+    # order independence and isolation on ONE database.  Every process below opens the same on-disk index (built once, then read-only), so
+    # "in isolation" and "after other queries" are asked of the same database; two in-memory instances may legitimately order equal-score
+    # matches differently (multi-threaded index build), which is not what the property speaks about.
+    # Families of near-identical phrases (case variants, tantivy operator words in both cases, outer blanks) are asked forwards in one
+    # process, backwards in another, and a sample as the very first query of a fresh process: a stateful lookup (cache keyed too coarsely,
+    # state carried from one query to the next) answers differently in at least one of the three.
+    import tempfile, shutil
     from .rac import Rac
-    fresh = Rac(rac.repo)
+    fam = []
+    for ph in good[:12 if tier == "quick" else 60]:
+        ws = ph.split()
+        if len(ws) >= 2:
+            fam.append([ph, ph.upper(), ph.title(), f"{ws[0]} not {ws[-1]}", f"{ws[0]} NOT {ws[-1]}", f"{ws[0]} or {ws[-1]}", f"{ws[0]} OR {ws[-1]}", f"{ws[0]} and {ws[-1]}", f"{ws[0]} AND {ws[-1]}", "  " + ph + " "])
+    fam.append(rnd.sample(good, min(25, len(good))))
+    os.makedirs("/var/tmp", exist_ok=True)
+    home = tempfile.mkdtemp(prefix="anything-verif-c18-", dir="/var/tmp")
     try:
-        for ph in rnd.sample(good, min(25, len(good))):
-            q = ph
-            rep.ran(("isolation", ph), True)
-            if val(fresh.ask({"cmd": "query", "q": q, "describe": False})) != alone[ph]:
-                rep.fail("a query gives another result in isolation", query=q, expected=str(alone[ph]), actual="differs in a fresh process")
+        Rac(rac.repo, data_home=home).close()          # builds the index on disk
+        fwd, bwd = Rac(rac.repo, data_home=home), Rac(rac.repo, data_home=home)
+        a_f, a_b = {}, {}
+        try:
+            for group in fam:
+                for q in group:
+                    a_f[q] = val(fwd.ask({"cmd": "query", "q": "(" + q + ")", "describe": True}))
+                for q in reversed(group):
+                    a_b[q] = val(bwd.ask({"cmd": "query", "q": "(" + q + ")", "describe": True}))
+                for q in group:
+                    rep.ran(("order", q), True)
+                    if a_f[q] != a_b[q]:
+                        rep.fail("the answer to a lookup depends on which lookups were made before it on the same database", query="(" + q + ")", expected=str(a_b[q])[:150] + " (asked after its later siblings)", actual=str(a_f[q])[:150] + " (asked after its earlier siblings)")
+        finally:
+            fwd.close()
+            bwd.close()
+        firsts = [g[k] for g in fam[:-1] for k in (1, 4)] + fam[-1][:6]
+        for q in firsts[:30 if tier == "quick" else 150]:
+            one = Rac(rac.repo, data_home=home)
+            try:
+                v = val(one.ask({"cmd": "query", "q": "(" + q + ")", "describe": False}))
+            finally:
+                one.close()
+            rep.ran(("isolation", q), True)
+            if v != a_f[q]:
+                rep.fail("a query gives another result in isolation than after other queries on the same database", query="(" + q + ")", expected=str(v)[:150] + " (first query of a fresh process)", actual=str(a_f[q])[:150])
     finally:
-        fresh.close()
+        shutil.rmtree(home, ignore_errors=True)
     return [rep]
 
 
